@@ -346,6 +346,9 @@ func init() {
 		if err := reconnectHistories(tier, seed, res); err != nil {
 			return err
 		}
+		// bursts of connections of which all but one are cut mid-request: the complete one is handled
+		// exactly once, every slot comes back
+		burstProbe(tier, res, true)
 		if err := compareServer("srv", srvCases, res); err != nil {
 			return err
 		}
@@ -363,7 +366,68 @@ func lens(p [][]byte) []int {
 
 // udpSegmentation: real loopback datagrams: the reply stream is cut into datagrams of at most 260
 // bytes in several ways; the client (udp, rtuoverudp) must return the same result.
+// udpCoalescedAcrossIdle: one datagram carries reply N and the beginning of reply N+1; the caller
+// idles for longer than the timeout before issuing request N+1; the rest of reply N+1 then arrives
+// in its own datagram. The result must be the one per-frame delivery gives.
+func udpCoalescedAcrossIdle(res *Result) {
+	for _, kind := range []string{"udp", "rtuoverudp"} {
+		peer, err := net.ListenUDP("udp", &net.UDPAddr{IP: net.IPv4(127, 0, 0, 1)})
+		if err != nil {
+			return
+		}
+		cconn, err := net.DialUDP("udp", nil, peer.LocalAddr().(*net.UDPAddr))
+		if err != nil {
+			peer.Close()
+			return
+		}
+		T := 60 * time.Millisecond
+		mc, err := modbus.VerifNewClientOnConn(&modbus.ClientConfiguration{URL: kind + "://" + peer.LocalAddr().String(), Speed: 10000000, Timeout: T, Logger: quietLog}, cconn)
+		if err != nil {
+			peer.Close()
+			return
+		}
+		rtu := isRTUKind(kind)
+		for _, pause := range []time.Duration{2 * time.Millisecond, 150 * time.Millisecond} {
+			go func() {
+				buf := make([]byte, 512)
+				var held []byte
+				for i := 0; i < 2; i++ {
+					peer.SetReadDeadline(time.Now().Add(2 * time.Second))
+					n, from, err := peer.ReadFromUDP(buf)
+					if err != nil {
+						return
+					}
+					w := parseWire(rtu, buf[:n])
+					if i == 0 {
+						r1 := w.frame(w.unit, w.fc, []byte{2, 0x11, 0x11})
+						w2 := w
+						w2.txn = w.txn + 1
+						r2 := w2.frame(w.unit, w.fc, []byte{2, 0x22, 0x22})
+						peer.WriteToUDP(append(append([]byte(nil), r1...), r2[:4]...), from)
+						held = r2[4:]
+					} else {
+						peer.WriteToUDP(held, from)
+					}
+				}
+			}()
+			op := &Op{Name: "ReadRegisters", Addr: 9, Qty: 1}
+			o1 := op.Exec(mc)
+			time.Sleep(pause)
+			o2 := op.Exec(mc)
+			line := fmt.Sprintf("%s: reply 1 and the first 4 bytes of reply 2 in one datagram; the caller idles %v (timeout %v); the rest of reply 2 in a second datagram", kind, pause, T)
+			res.Eval(fmt.Sprintf("udp-idle/%s/%v", kind, pause > T), true, line+" => "+o1+" ; "+o2)
+			if o1 != "ok:h:1111" || o2 != "ok:h:2222" {
+				res.Add(Finding{Kind: "property", Check: "udp-coalesced-idle", Line: line, Impl: o1 + " ; " + o2, Expect: "ok:h:1111 ; ok:h:2222",
+					Note: "bytes of the following frame that arrived coalesced with the previous reply were lost"})
+			}
+		}
+		mc.Close()
+		peer.Close()
+	}
+}
+
 func udpSegmentation(tier string, seed uint64, res *Result) error {
+	udpCoalescedAcrossIdle(res)
 	r := NewRng(seed).Fork(3200)
 	for _, kind := range []string{"udp", "rtuoverudp"} {
 		peer, err := net.ListenUDP("udp", &net.UDPAddr{IP: net.IPv4(127, 0, 0, 1)})
